@@ -64,6 +64,7 @@ static int addNode(int par, const std::string& body) {
 }
 
 static char g_cur[4096];
+static bool g_wide = false;
 static const char* g_outpath;
 static void flushTree(const char* crashNote) {
   FILE* f = fopen(g_outpath, "w");
@@ -150,7 +151,39 @@ struct Explorer {
     dfs(r, h, depth);
     a.reset();
   }
+  // scripted walks for the priority queues: fill with distinct keys in random order, remove a random
+  // non-minimum key, drain -- the shape in which a broken sift shows
+  void pqScripted(const std::string& cname, int walks) {
+    for (int w = 0; w < walks; ++w) {
+      int node = resetNode(cname);
+      std::vector<Op> h;
+      std::vector<long> keys;
+      for (long v = 1; v <= 7 + (long)rng.below(6); ++v) keys.push_back(v);
+      for (size_t i = keys.size(); i > 1; --i) std::swap(keys[i - 1], keys[rng.below(i)]);
+      std::vector<Op> script;
+      for (long v : keys) script.push_back({"push", v, 0});
+      for (int r = 0; r < 2; ++r) script.push_back({"remove", 2 + (long)rng.below(keys.size() - 1), 0});
+      if (rng.coin(1, 2)) script.push_back({"push", 20, 0});
+      for (size_t i = 0; i < keys.size() + 1; ++i) script.push_back({"pop", 0, 0});
+      long held = 0;
+      for (auto& op : script) {
+        std::string on = op.name;
+        if (on == "pop" && held <= 0) break;
+        g_histPar = node;
+        noteCur(h, &op);
+        std::string res = a.apply(op);
+        if (on == "push" && res.find("[1]") != std::string::npos) ++held;
+        if (on == "pop") --held;
+        if (on == "remove" && res.find("[1]") != std::string::npos) --held;
+        node = addNode(node, record(op, res));
+        h.push_back(op);
+      }
+      a.reset();
+    }
+  }
   void randomWalks(const std::string& cname, int walks, int len) {
+    g_wide = true;
+    if (std::string(a.adt()) == "heap" || std::string(a.adt()) == "oset") pqScripted(cname, walks);
     for (int w = 0; w < walks; ++w) {
       int node = resetNode(cname);
       std::vector<Op> h;
@@ -170,6 +203,7 @@ struct Explorer {
       }
       a.reset();
     }
+    g_wide = false;
   }
 };
 
@@ -514,9 +548,10 @@ struct PQA {
   void reset() { d.reset(new D()); }
   bool grows(const Op& o) { return o.name[0] == 'p' && o.name[1] == 'u'; }
   void ops(std::vector<Op>& c, int step) {
-    for (long v = 1; v <= 4; ++v) { c.push_back({"push", v, 0}); c.push_back({"find", v, 0}); }
+    long hi = g_wide ? 12 : 4;   // random walks use a wider value domain (larger heaps with distinct keys)
+    for (long v = 1; v <= hi; ++v) { c.push_back({"push", v, 0}); if (v <= 4) c.push_back({"find", v, 0}); }
     if (d->size()) { c.push_back({"pop", 0, 0}); c.push_back({"top", 0, 0}); }
-    if (d->size()) for (long v = 1; v <= 4; ++v) c.push_back({"remove", v, 0});
+    if (d->size()) for (long v = 1; v <= hi; ++v) c.push_back({"remove", v, 0});
     c.push_back({"clear", 0, 0});
     c.push_back({"size", 0, 0});
     c.push_back({"fromrange", 0, 0});
@@ -723,9 +758,9 @@ int main(int argc, char** argv) {
   COMP("flat_map", FlatMapA, 3, 30)
   typedef PQA<galois::MinHeap<int>, false> MH; typedef PQA<galois::ThreadSafeMinHeap<int>, false> TMH;
   typedef PQA<galois::ThreadSafeOrderedSet<int>, true> TOS;
-  COMP("MinHeap", MH, 4, 24)
-  COMP("ThreadSafeMinHeap", TMH, 4, 24)
-  COMP("ThreadSafeOrderedSet", TOS, 4, 24)
+  COMP("MinHeap", MH, 4, 48)
+  COMP("ThreadSafeMinHeap", TMH, 4, 48)
+  COMP("ThreadSafeOrderedSet", TOS, 4, 40)
   COMP("Lazy", LazyA, 4, 24)
   if (comp == "all" || comp == "TwoLevelIterator") twoLevelCases(rng, th);
   if (comp == "all" || comp == "LargeArray") largeArrayCases();
